@@ -167,7 +167,7 @@ theorem popped_others (c : Conn V) (e : Key × Nat) (f : Fut V) :
   · refine ⟨?_, ?_, ?_, rfl⟩
     · intro x hx hne; exact (mem_erase_of_ne hne).2 hx
     · intro x hx; exact mem_of_mem_erase hx
-    · intro t ht; simp [getElem?_set, Ne.symm ht]
+    · intro t ht; simp [Ne.symm ht]
   · refine ⟨?_, ?_, fun _ _ => rfl, rfl⟩
     · intro x hx hne; exact (mem_erase_of_ne hne).2 hx
     · intro x hx; exact mem_of_mem_erase hx
@@ -388,6 +388,22 @@ theorem unknown_id_harmless (vr : Variant) (k : Nat) (c : Conn V) (d : Proto) :
         · cases hobs
         · exact recvResponseBatch_typeError _ _ _ hobs
 
+/-- non-vacuity of `batch_mismatch` / `unknown_id_harmless`: with requests 0, 1 and the batch
+    (2, 3, 4) outstanding, the batch answered by ids 4, 2, 3 is accepted (ticket 2); a batch
+    response with a member missing, one with a foreign member, a single response to the member id
+    3 and a response to the unsent id 9 are all rejected with `ProtocolError`. -/
+example :
+    let vr := repaired false false
+    let c : Conn Nat := (run vr 1 (Conn.init (some .v2) 0)
+      [.sendRequest true, .sendRequest true, .sendBatch [.req, .notif, .req, .req] true]).1
+    let r := fun (n : Int) => (⟨some (.int n), true, .val 1⟩ : RawResp Nat)
+    (step vr 1 c (.recvBatch .v2 [r 4, r 2, r 3])).2 = .done [2] ∧
+    (step vr 1 c (.recvBatch .v2 [r 4, r 2])).2 = .raised .protocolError ∧
+    (step vr 1 c (.recvBatch .v2 [r 4, r 2, r 9])).2 = .raised .protocolError ∧
+    (step vr 1 c (.recvSingle .v2 (r 3))).2 = .raised .protocolError ∧
+    (step vr 1 c (.recvSingle .v2 (r 9))) = (c, .raised .protocolError) := by
+  decide
+
 /-! ## a response never completes the same request twice -/
 
 /-- tickets completed by the receives of a history, in order -/
@@ -516,6 +532,17 @@ theorem complete_once (vr : Variant) {k : Nat} (hk : 0 < k) (ops : List (Op V)) 
     | raised _ => exact ⟨ih1, later⟩
     | cancelled _ => exact ⟨ih1, later⟩
 
+/-- non-vacuity of `complete_once` / `fut_final`: request 0 answered, replayed (rejected),
+    request 1 answered: tickets 0 and 1 complete once each and keep their outcome. -/
+example :
+    let vr := repaired false false
+    let r := fun (n : Int) (v : Nat) => (⟨some (.int n), true, .val v⟩ : RawResp Nat)
+    let h := run vr 1 (Conn.init (some .v2) 0)
+      [.sendRequest true, .sendRequest true, .recvSingle .v2 (r 0 5), .recvSingle .v2 (r 0 6),
+       .recvSingle .v2 (r 1 7), .cancelAll]
+    completions h.2 = [0, 1] ∧ h.1.futs = [.result 5, .result 7] := by
+  decide
+
 theorem cancelTickets_done (futs : List (Fut V)) (ts : List Nat) (t : Nat) (f : Fut V)
     (h : futs[t]? = some f) (hf : f ≠ .pending) : (cancelTickets futs ts)[t]? = some f := by
   induction ts generalizing futs with
@@ -545,7 +572,7 @@ theorem fut_final (vr : Variant) (k : Nat) (c : Conn V) (op : Op V) (t : Nat) (f
           intro he
           simp only [isPending, he, h] at hp
           cases f <;> simp_all
-        simp [getElem?_set, hne, h]
+        simp [hne, h]
       · exact h
   have hlt : t < c.futs.length := by
     rcases Nat.lt_or_ge t c.futs.length with h' | h'
@@ -650,8 +677,7 @@ theorem bool_id_distinct (lg sg : Bool) (k : Nat) (c : Conn V) (d : Proto) (b : 
   · intro wf r
     rw [step_recvSingle]
     cases hp : c.detect d <;> cases wf <;>
-      simp [processResponse, admitId, repaired, recvResponse, Id.isBool, complete_none, matchSingle,
-        pyEq, Id.num2]
+      simp [processResponse, admitId, repaired, recvResponse, Id.isBool]
     all_goals
       apply complete_none
       rintro ⟨key, t⟩ _
